@@ -439,17 +439,81 @@ pub fn check_cluster(args: &CheckArgs) -> i32 {
     let mut faults: BTreeMap<String, u64> = BTreeMap::new();
     let mut policies: BTreeMap<String, u64> = BTreeMap::new();
     let mut states: BTreeSet<u64> = BTreeSet::new();
-    for (mut c, out) in children {
-        let status = c.wait();
-        if !status.as_ref().map(|s| s.success()).unwrap_or(false) {
-            let at = std::fs::read_to_string(out.with_extension("progress")).unwrap_or_default();
-            eprintln!(
-                "HARNESS-ERROR: a shard process failed ({}): {:?}; it was executing run {at} (reproduce: hqsim one --seed <seed> --profile <profile> -v)",
-                out.display(),
-                status
-            );
-            let _ = std::fs::remove_dir_all(&scratch);
-            return 2;
+    // Wait for the shards. A shard whose progress note does not change for a long time is stuck
+    // inside one run (the code under test does not return): it is killed, the run is reported
+    // as a violation (`hang@<profile>`), the rest of its runs is lost.
+    let hang_secs: u64 = std::env::var("HQSIM_HANG_SECS")
+        .ok()
+        .and_then(|v| v.parse().ok())
+        .unwrap_or(180);
+    let mut hangs: Vec<(u64, u64, String)> = Vec::new();
+    let mut finished: Vec<(PathBuf, bool)> = Vec::new();
+    {
+        let mut live: Vec<(std::process::Child, PathBuf, String, std::time::Instant)> = children
+            .into_iter()
+            .map(|(c, out)| (c, out, String::new(), std::time::Instant::now()))
+            .collect();
+        while !live.is_empty() {
+            let mut i = 0;
+            while i < live.len() {
+                let (c, out, note, since) = &mut live[i];
+                match c.try_wait() {
+                    Ok(Some(status)) => {
+                        if !status.success() {
+                            let at = std::fs::read_to_string(out.with_extension("progress"))
+                                .unwrap_or_default();
+                            eprintln!(
+                                "HARNESS-ERROR: a shard process failed ({}): {:?}; it was executing run {at}",
+                                out.display(),
+                                status
+                            );
+                            for (c, _, _, _) in live.iter_mut() {
+                                let _ = c.kill();
+                                let _ = c.wait();
+                            }
+                            let _ = std::fs::remove_dir_all(&scratch);
+                            return 2;
+                        }
+                        finished.push((out.clone(), true));
+                        live.remove(i);
+                        continue;
+                    }
+                    Ok(None) => {
+                        let now_note = std::fs::read_to_string(out.with_extension("progress"))
+                            .unwrap_or_default();
+                        if now_note != *note {
+                            *note = now_note;
+                            *since = std::time::Instant::now();
+                        } else if since.elapsed().as_secs() > hang_secs && !note.is_empty() {
+                            let _ = c.kill();
+                            let _ = c.wait();
+                            let field = |k: &str| -> String {
+                                note.split_whitespace()
+                                    .find_map(|t| t.strip_prefix(&format!("{k}=")))
+                                    .unwrap_or("")
+                                    .to_string()
+                            };
+                            hangs.push((
+                                field("index").parse().unwrap_or(0),
+                                field("seed").parse().unwrap_or(0),
+                                field("profile"),
+                            ));
+                            finished.push((out.clone(), false));
+                            live.remove(i);
+                            continue;
+                        }
+                    }
+                    Err(_) => {}
+                }
+                i += 1;
+            }
+            std::thread::sleep(std::time::Duration::from_millis(200));
+        }
+    }
+    finished.sort();
+    for (out, complete) in finished {
+        if !complete {
+            continue;
         }
         let Ok(text) = std::fs::read_to_string(&out) else {
             eprintln!("HARNESS-ERROR: shard output missing");
@@ -501,6 +565,54 @@ pub fn check_cluster(args: &CheckArgs) -> i32 {
     let mut exit = 0;
     let mut known_hit: Vec<String> = Vec::new();
     let mut violations: Vec<serde_json::Value> = Vec::new();
+    hangs.sort();
+    let mut hang_sigs: BTreeSet<String> = BTreeSet::new();
+    for (index, seed, profile) in &hangs {
+        let sig = format!("hang@{profile}");
+        if !hang_sigs.insert(sig.clone()) {
+            continue;
+        }
+        if let Some(k) = known
+            .iter()
+            .find(|k| k.property == cfg.id && signature_matches(&k.signature, &sig))
+        {
+            println!(
+                "KNOWN-FINDING: property={} signature={} {} (run index {index})",
+                cfg.id, sig, k.text
+            );
+            known_hit.push(sig.clone());
+            continue;
+        }
+        let path = args
+            .verif_dir
+            .join("replays")
+            .join(format!("{}-{}-hang_{}.json", cfg.id, seed, profile));
+        let msg = format!(
+            "run {index} (seed {seed}, profile {profile}) did not return within {hang_secs} s: the code under test hangs (other runs take well under a second)"
+        );
+        write_json(
+            &path,
+            &serde_json::json!({
+                "engine": "cluster", "kind": "hang", "property": cfg.id,
+                "verif_seed": args.seed, "index": index, "seed": seed, "profile": profile,
+                "signature": format!("{} {}", cfg.id, sig), "message": msg,
+            }),
+        );
+        let code = std::process::Command::new(&exe)
+            .arg("replay")
+            .arg(&path)
+            .status()
+            .ok()
+            .and_then(|s| s.code());
+        if code != Some(1) {
+            eprintln!("HARNESS-ERROR: the hang of run {index} was not reproduced in a fresh process");
+            harness_errors += 1;
+        }
+        println!("finding {} {}: {}", cfg.id, sig, msg);
+        println!("VIOLATION property={} replay={}", cfg.id, path.display());
+        violations.push(serde_json::json!({"signature": sig, "runs": hangs.len(), "replay": path.display().to_string()}));
+        exit = 1;
+    }
     for (sig, (count, first, msg)) in &by_sig {
         if let Some(k) = known
             .iter()
@@ -779,6 +891,68 @@ fn sample_traces(args: &CheckArgs, cfg: &PropertyConfig, runs: &[RunSummary]) ->
 
 /// Replays a file; exit 1 and the VIOLATION line if it reproduces its recorded violation with
 /// the recorded observable log, exit 0 if the violation no longer occurs, exit 2 on divergence.
+/// A run that did not return: executed again (same VERIF_SEED, property and index, hence the
+/// same seed) in a child process under a time limit.
+fn replay_hang(path: &Path, v: &serde_json::Value) -> i32 {
+    let get = |k: &str| v.get(k).cloned().unwrap_or(serde_json::Value::Null);
+    let (Some(property), Some(verif_seed), Some(index)) = (
+        get("property").as_str().map(|s| s.to_string()),
+        get("verif_seed").as_u64(),
+        get("index").as_u64(),
+    ) else {
+        eprintln!("malformed hang replay file");
+        return 2;
+    };
+    let limit: u64 = std::env::var("HQSIM_HANG_REPLAY_SECS")
+        .ok()
+        .and_then(|v| v.parse().ok())
+        .unwrap_or(60);
+    let out = std::env::temp_dir().join(format!("hqsim-hang-replay-{}.json", std::process::id()));
+    let Ok(mut child) = std::process::Command::new(std::env::current_exe().unwrap())
+        .arg("shard")
+        .arg("--property")
+        .arg(&property)
+        .arg("--seed")
+        .arg(verif_seed.to_string())
+        .arg("--from")
+        .arg(index.to_string())
+        .arg("--n")
+        .arg("1")
+        .arg("--stride")
+        .arg("1")
+        .arg("--out")
+        .arg(&out)
+        .spawn()
+    else {
+        return 2;
+    };
+    let start = std::time::Instant::now();
+    loop {
+        match child.try_wait() {
+            Ok(Some(status)) => {
+                let _ = std::fs::remove_file(&out);
+                println!(
+                    "run {index} of {property} returned after {:.1} s ({status:?}): the recorded hang does not occur",
+                    start.elapsed().as_secs_f64()
+                );
+                return 0;
+            }
+            Ok(None) if start.elapsed().as_secs() > limit => {
+                let _ = child.kill();
+                let _ = child.wait();
+                let _ = std::fs::remove_file(&out);
+                println!(
+                    "run {index} of {property} (seed {}) did not return within {limit} s",
+                    get("seed")
+                );
+                println!("VIOLATION property={property} replay={}", path.display());
+                return 1;
+            }
+            _ => std::thread::sleep(std::time::Duration::from_millis(100)),
+        }
+    }
+}
+
 pub fn replay_file(path: &Path, verbose: bool) -> i32 {
     let text = match std::fs::read_to_string(path) {
         Ok(t) => t,
@@ -787,6 +961,11 @@ pub fn replay_file(path: &Path, verbose: bool) -> i32 {
             return 2;
         }
     };
+    if let Ok(v) = serde_json::from_str::<serde_json::Value>(&text)
+        && v.get("kind").and_then(|k| k.as_str()) == Some("hang")
+    {
+        return replay_hang(path, &v);
+    }
     let file: ReplayFile = match serde_json::from_str(&text) {
         Ok(f) => f,
         Err(e) => {
